@@ -151,6 +151,12 @@ def geo_worlds(tier: str, seed: int, *, convs=W.ALL_CONVS, big: bool = True) -> 
             wd, h = (rng.randint(3, 6), rng.randint(3, 5)) if big else (rng.randint(2, 3), rng.randint(2, 3))
             m = W.random_mesh(rng, wd, h, shape=rng.choice(["rect", "skew", "skew2"]))
             out.append(mesh_world(m, enc=rng.choice(encs), edges=rng.random() < .5, centres=rng.random() < .3))
+    # the same worlds held in different ways (see viafile.hold): deterministic in the position
+    vias = ["memory", "file", "memory", "dask", "memory", "emsopen", "memory"]
+    for k, w in enumerate(out):
+        w["via"] = vias[k % len(vias)]
+        if w["conv"] in ("cf1d", "cf2d", "shoc_simple") and "xb" in w["geom"] and k % 3 == 1:
+            w["bounds_as_coords"] = True
     return out
 
 
